@@ -1,6 +1,9 @@
 /-
   C01 — calendar, ordinal, ISO-week and day-count forms of a date agree.
-  Property statements only (helper lemmas in Chrono/Proofs/DateL.lean).
+  Property statements only (helper lemmas: Proofs/DateFin.lean — kernel-evaluated finite facts —
+  and Proofs/DateL.lean).  Specification: Spec/Calendar.lean (leap rule, month lengths, closed-form
+  day number with 0001-01-01 = day 1, weekday of a day number), independent of chrono's tables.
+  `dateOfYo y o` is the packed word `y·8192 + o·16 + flagsOf y` of the o-th day of year y.
 -/
 import Chrono.Proofs.DateL
 
@@ -15,5 +18,99 @@ theorem tables_ok :
     OL_TO_MDL.length = 733 ∧ (∀ i < 733, 1 < i → OL_TO_MDL.getD i 0 = olDelta i) ∧
     YEAR_DELTAS.length = 401 ∧ (∀ i < 401, YEAR_DELTAS.getD i 0 = leapsBefore i) :=
   tables_ok'
+
+/-- the extracted range constants and the packed range ends -/
+theorem consts_ok :
+    MIN_YEAR = -262143 ∧ MAX_YEAR = 262142 ∧ MAX_OL = 732 ∧ DATE_MAX_OL = 5856 ∧
+    Date.MIN = dateOfYo MIN_YEAR 1 ∧ Date.MAX = dateOfYo MAX_YEAR 365 ∧
+    dayNumYo MIN_YEAR 1 = -95746129 ∧ dayNumYo MAX_YEAR 365 = 95745399 ∧
+    dayNum 1970 1 1 = 719163 ∧ weekdayOf 719163 = 3 := by decide
+
+/-- year flags of **every** year (400-year periodicity of the leap rule and of the weekday):
+the table lookup yields the leap status and the weekday of Dec 31 of the previous year -/
+theorem year_flags_spec (y : Int) :
+    YearFlags.from_year y = flagsOf y ∧ YearFlags.ndays (flagsOf y) = yearLen y ∧
+    (flagsOf y / 8 = if isLeap y then 0 else 1) := by
+  obtain ⟨h16, _, hl, _⟩ := flagsOf_facts y
+  refine ⟨from_year_spec y, ?_, hl⟩
+  unfold YearFlags.ndays yearLen
+  rw [hl]; cases isLeap y <;> simp
+
+/-- year-month-day constructor, every argument tuple: yields the date for exactly the tuples that
+denote an existing date of the supported range, nothing otherwise, never panics -/
+theorem ctor_ymd (y : Int) (m d : Nat) :
+    Date.from_ymd_opt y m d =
+      .ok (if MIN_YEAR ≤ y ∧ y ≤ MAX_YEAR ∧ validYmd y m d = true
+           then some (dateOfYo y (ordinalOf y m d)) else none) := ctor_ymd' y m d
+
+/-- year-ordinal constructor, every argument tuple -/
+theorem ctor_yo (y : Int) (o : Nat) :
+    Date.from_yo_opt y o =
+      .ok (if MIN_YEAR ≤ y ∧ y ≤ MAX_YEAR ∧ 1 ≤ o ∧ o ≤ yearLen y then some (dateOfYo y o) else none) :=
+  ctor_yo' y o
+
+/-- day-number constructor, every `i32`: never panics, fails exactly outside the range, and the
+result is a date of the range whose day number is the argument -/
+theorem ctor_days (n : Int) (hn : -2147483648 ≤ n ∧ n ≤ 2147483647) :
+    ∃ r, Date.from_num_days_from_ce_opt n = .ok r ∧
+      (∀ d, r = some d → ∃ y o, d = dateOfYo y o ∧ MIN_YEAR ≤ y ∧ y ≤ MAX_YEAR ∧ 1 ≤ o ∧ o ≤ yearLen y ∧
+        dayNumYo y o = n) ∧
+      (r = none ↔ (n < dayNumYo MIN_YEAR 1 ∨ n > dayNumYo MAX_YEAR 365)) := ctor_days' n hn
+
+/-- accessors of the o-th day of year y: year, ordinal, leap flag; month and day are the unique
+valid calendar form with that ordinal; the day number is the closed form; the weekday is the
+weekday of the day number -/
+theorem accessors_ok (y : Int) (o : Nat) (hy : MIN_YEAR ≤ y ∧ y ≤ MAX_YEAR)
+    (ho : 1 ≤ o ∧ o ≤ yearLen y) :
+    (dateOfYo y o).year = y ∧ (dateOfYo y o).ordinal = o ∧ (dateOfYo y o).leap_year = isLeap y ∧
+    (dateOfYo y o).month = .ok (monthOfYo y o) ∧ (dateOfYo y o).day = .ok (dayOfYo y o) ∧
+    validYmd y (monthOfYo y o) (dayOfYo y o) = true ∧ ordinalOf y (monthOfYo y o) (dayOfYo y o) = o ∧
+    (dateOfYo y o).num_days_from_ce = .ok (dayNumYo y o) ∧
+    ((dateOfYo y o).weekday.toNat : Int) = weekdayOf (dayNumYo y o) := by
+  have hyl := yearLen_ge y
+  have hMIN : MIN_YEAR = -262143 := rfl
+  have hMAX : MAX_YEAR = 262142 := rfl
+  obtain ⟨h1, h2, _, _, _, h6⟩ := dateOfYo_fields y o (by omega)
+  obtain ⟨m1, m2, m3, m4⟩ := month_day_spec y o ho.1 ho.2
+  refine ⟨h1, h2, h6, m1, m2, m3, m4, ?_, weekday_spec y o (by omega)⟩
+  have := num_days_spec (dateOfYo y o) (by rw [h1]; omega) (by rw [h1]; omega) (by rw [h2]; omega)
+  rw [h1, h2] at this
+  exact this
+
+/-- exactly one calendar form: a valid (month, day) is recovered from its ordinal -/
+theorem ymd_form_unique (y : Int) (m d : Nat) (h : validYmd y m d = true) :
+    monthOfYo y (ordinalOf y m d) = m ∧ dayOfYo y (ordinalOf y m d) = d := ymd_unique y m d h
+
+/-- date order (derived comparison of the packed word) equals day-number order, and two dates are
+equal exactly when their day numbers are (one day number per date) -/
+theorem order_iso (y1 y2 : Int) (o1 o2 : Nat) (h1 : 1 ≤ o1 ∧ o1 ≤ yearLen y1)
+    (h2 : 1 ≤ o2 ∧ o2 ≤ yearLen y2) :
+    ((dateOfYo y1 o1).yof < (dateOfYo y2 o2).yof ↔ dayNumYo y1 o1 < dayNumYo y2 o2) ∧
+    ((dateOfYo y1 o1).yof = (dateOfYo y2 o2).yof ↔ dayNumYo y1 o1 = dayNumYo y2 o2) :=
+  order_spec y1 y2 o1 o2 h1 h2
+
+/-- the successor is the next day (day number + 1, next weekday) and exists unless the date is MAX -/
+theorem succ_ok (y : Int) (o : Nat) (hy : MIN_YEAR ≤ y ∧ y ≤ MAX_YEAR) (ho : 1 ≤ o ∧ o ≤ yearLen y) :
+    ∃ r, Date.succ_opt (dateOfYo y o) = .ok r ∧
+      (r = none ↔ dateOfYo y o = Date.MAX) ∧
+      (∀ d, r = some d → ∃ y' o', d = dateOfYo y' o' ∧ MIN_YEAR ≤ y' ∧ y' ≤ MAX_YEAR ∧ 1 ≤ o' ∧
+        o' ≤ yearLen y' ∧ dayNumYo y' o' = dayNumYo y o + 1 ∧
+        weekdayOf (dayNumYo y' o') = (weekdayOf (dayNumYo y o) + 1) % 7) :=
+  succ_ok' y o hy ho
+
+/-- the predecessor is the previous day and exists unless the date is MIN -/
+theorem pred_ok (y : Int) (o : Nat) (hy : MIN_YEAR ≤ y ∧ y ≤ MAX_YEAR) (ho : 1 ≤ o ∧ o ≤ yearLen y) :
+    ∃ r, Date.pred_opt (dateOfYo y o) = .ok r ∧
+      (r = none ↔ dateOfYo y o = Date.MIN) ∧
+      (∀ d, r = some d → ∃ y' o', d = dateOfYo y' o' ∧ MIN_YEAR ≤ y' ∧ y' ≤ MAX_YEAR ∧ 1 ≤ o' ∧
+        o' ≤ yearLen y' ∧ dayNumYo y' o' = dayNumYo y o - 1) :=
+  pred_ok' y o hy ho
+
+/-- non-vacuity: a leap day, both range ends, a non-existent and an out-of-range tuple -/
+example : Date.from_ymd_opt 2024 2 29 = .ok (some (dateOfYo 2024 60)) ∧
+    Date.from_ymd_opt 2023 2 29 = .ok none ∧ Date.from_ymd_opt 262143 1 1 = .ok none ∧
+    Date.from_yo_opt (-262143) 1 = .ok (some Date.MIN) ∧
+    Date.succ_opt Date.MAX = .ok none ∧ (yearLen 2024 = 366 ∧ validYmd 2024 2 29 = true) := by
+  decide +kernel
 
 end Chrono.Props.C01
